@@ -141,8 +141,9 @@ Definition validate_nonzero (w : vview) : res unit :=
     end
   end.
 
+(* positive, min and max look through pointers (and interfaces), like nonzero (fix F56) *)
 Definition validate_positive (w : vview) : res unit :=
-  match w with
+  match chase_view w with
   | WPrim (CD d) | WPrim (CI d) => if d <? 0 then Err ENegative "" else Ok tt
   | WPrim (CF f) => if f_is_neg f || match decode f with FNaN => true | _ => false end then Err ENegative "" else Ok tt
   | _ => Ok tt
@@ -188,7 +189,7 @@ Definition param_duration (vo : voracle) (p : string) : res Z :=
 Definition validate_minmax (vo : voracle) (ismin : bool) (p : string) (w : vview) : res unit :=
   let ok (c : comparison) := if ismin then match c with Lt => false | _ => true end
                              else match c with Gt => false | _ => true end in
-  match w with
+  match chase_view w with
   | WNil => Ok tt
   | WPrim (CD d) =>
     b <- param_duration vo p ;;
@@ -372,7 +373,12 @@ Section Reify.
     | S f =>
       let '(o, th, vts) := fo in
       match is_nil (Some val) with
-      | true => Ok (pointerize t (zero (base_ty t)))
+      | true =>
+        (* the zero value a null entry stands for is validated like a converted value (fix F58) *)
+        match base_ty t with
+        | TPrim k => _ <- run_validators (r_vo o) vts (WPrim (zero_prim k)) ;; Ok (pointerize t (zero (base_ty t)))
+        | _ => Ok (pointerize t (zero (base_ty t)))
+        end
       | false =>
         match base_ty t with
         | TPrim k =>
